@@ -19,7 +19,7 @@ var reduced = []byte{'&', '<', '>', '"', '\'', '%', '+', '/', '\\', ';', '#', ' 
 func init() {
 	vlib.Register(&vlib.Check{
 		ID: "C35", Engine: "E2",
-		Rule: "every byte string of length <= 1 (quick) / <= 2 (thorough) over all 256 byte values plus every string of length 2..3 (quick) / 3..5 (thorough) over the 16 bytes {& < > \" ' % + / \\ ; # space LF NUL 0xC3 0xA9} is written to the stdin of a fork and piped through `<stdin> -> X -> !X` for X in {escape, eschtml, escurl}; stdout must equal the input bytes. The encoder is also run alone (`<stdin> -> X`) to classify the case; non-trivial = the encoder changed the text (for escape: changed more than adding the surrounding quotes)",
+		Rule: "(also: every sequence of <= 3 (thorough 4) tokens over {&amp; &lt; &quot; &#92; &#34; %20 %2B + \\n \\\" \" a space \"a\" & %}, i.e. text that already contains the encoders own escape sequences) every byte string of length <= 1 (quick) / <= 2 (thorough) over all 256 byte values plus every string of length 2..3 (quick) / 3..5 (thorough) over the 16 bytes {& < > \" ' % + / \\ ; # space LF NUL 0xC3 0xA9} is written to the stdin of a fork and piped through `<stdin> -> X -> !X` for X in {escape, eschtml, escurl}; stdout must equal the input bytes. The encoder is also run alone (`<stdin> -> X`) to classify the case; non-trivial = the encoder changed the text (for escape: changed more than adding the surrounding quotes)",
 		Run:    run,
 		Replay: replay,
 		Assumptions: []string{
@@ -69,8 +69,30 @@ func run(c *vlib.Ctx) {
 		return
 	}
 	// length <= 1 (2) over the reduced alphabet is part of the full range above
-	each(reduced, redMin, redMax)
+	if !each(reduced, redMin, redMax) {
+		return
+	}
+	// texts that already contain the encoders' own escape sequences (an entity, a percent escape, a
+	// backslash escape, a quoted string): sequences of up to 3 (thorough 4) such tokens
+	tokMax := 3
+	if !c.Quick() {
+		tokMax = 4
+	}
+	vlib.Strings(escTokens, 1, tokMax, func(s string, _ []int) bool {
+		if !c.Next() {
+			return true
+		}
+		n++
+		if n&0xff == 0 && c.Expired() {
+			return false
+		}
+		one(c, []byte(s), n%3001 == 1)
+		return true
+	})
 }
+
+// escTokens: what the three encoders themselves produce, as *input* text
+var escTokens = []string{"&amp;", "&lt;", "&quot;", "&#92;", "&#34;", "%20", "%2B", "+", `\n`, `\"`, `"`, "a", " ", `"a"`, "&", "%"}
 
 func witness(x string, in []byte) string { return fmt.Sprintf("%s %q", x, string(in)) }
 
